@@ -19,6 +19,12 @@ DUNDERS = ('__init__', '__new__', '__getitem__', '__add__', '__iadd__', '__str__
            '__repr__', '__format__', '__iter__', '__eq__', '__contains__', '__len__')
 
 
+class CaseTimeout(BaseException):
+    """raised by the runner's SIGALRM handler (vf/props/common.py) when nothing has made progress for the alarm
+    period of wall clock.  Never a verdict: the wrappers pass it through unjudged, the case is counted as abandoned
+    and the run comes out inconclusive."""
+
+
 class StepBudgetExceeded(BaseException):
     """Raised by the step-budget monitor inside the library call (BaseException so
     that no `except Exception` in the library can swallow it)."""
@@ -405,7 +411,8 @@ class Monitor:
                         if n > ctx.max_steps:
                             ctx.max_steps = n
                             ctx.max_steps_call = key
-                if isinstance(exc, (KeyboardInterrupt, SystemExit)):
+                if isinstance(exc, (KeyboardInterrupt, SystemExit, CaseTimeout)):
+                    # (a wall-clock alarm going off inside the call says nothing about the library)
                     raise exc
                 if isinstance(exc, StepBudgetExceeded) and not mon.budget_judged:
                     # safety net only: this check does not judge termination (C09/C10 do)
